@@ -33,7 +33,20 @@ Decl(ty, san, vmode, val, dflt) == DeclC("From", ty, san, vmode, val, dflt)
 \* a generic newtype can only have a type-agnostic default expression (`vec![]`)
 Defaults(ty) == IF ty = "Vec<T>" THEN {<<<<>>>>} ELSE {<<<<2, 1>>>>, <<<<>>>>}
 
+\* a third inner type of the "any" family: a user struct Point(i32, i32) with hand-written Display ("x,y") and
+\* FromStr; its values are the two-element sequences.  It brings Display / FromStr / Copy to the family (C06, C13).
+PointTraits == <<"Debug", "Clone", "Copy", "PartialEq", "Eq", "PartialOrd", "Ord", "Hash", "AsRef", "Deref", "Borrow", "Into",
+                 "Display", "FromStr", "Default", "Serialize", "Deserialize">>
+PointDecl(conv, san, vmode, val) ==
+  [fam |-> "any", ty |-> "Point", san |-> san, vmode |-> vmode, val |-> val,
+   traits |-> PointTraits \o (IF vmode = "none" /\ conv = "From" THEN <<"From">> ELSE <<"TryFrom">>), dflt |-> <<<<1, 2>>>>]
+PointDecls ==
+  {PointDecl("From", san, "std", val) : san \in {<<>>, <<San("rev")>>}, val \in {<<P("sorted")>>}}
+  \cup {PointDecl(c, san, "none", <<>>) : san \in {<<>>, <<San("rev")>>}, c \in {"From", "TryFrom"}}
+PointVals == [1..2 -> Elems]
+
 DeclSpace ==
+  PointDecls \cup
   UNION {
     {Decl(ty, san, "std", val, dflt) : san \in SanSeqs, val \in ValSeqs, dflt \in Defaults(ty)}
     \cup {Decl(ty, san, "none", <<>>, dflt) : san \in SanSeqs, dflt \in Defaults(ty)}
@@ -45,10 +58,10 @@ MCDeclSeq == SetToSeq(DeclSpace)
 
 MCInputsOf(d, e) ==
   IF e = "default" THEN {In(<<>>)}
-  ELSE {In(x) : x \in Vals} \cup (IF e = "deser" THEN {InFail} ELSE {})
+  ELSE {In(x) : x \in (IF d.ty = "Point" THEN PointVals ELSE Vals)} \cup (IF e \in {"deser", "parse"} THEN {InFail} ELSE {})
 
 MCEpsOf(d) ==
-  {CtorName(d), "default", "deser"} \cup (IF NInSeq("From", d.traits) THEN {"from"} ELSE {"try_from"})
+  {CtorName(d), "default", "deser"} \cup (IF d.ty = "Point" THEN {"parse"} ELSE {}) \cup (IF NInSeq("From", d.traits) THEN {"from"} ELSE {"try_from"})
 
 MCPrim(n, x, env) == x
 
